@@ -3,419 +3,7 @@
 // Reads a case file (see gen/generate.py for the grammar), drives the real
 // container under a link-time virtual steady_clock, and prints one canonical line
 // per operation / probe.  No repository change is needed for any of this.
-#include <chrono>
-#include <cstdint>
-#include <cstdio>
-#include <cstdlib>
-#include <fstream>
-#include <iostream>
-#include <optional>
-#include <sstream>
-#include <string>
-#include <tuple>
-#include <vector>
-
-#include "cappuccino/cappuccino.hpp"
-
-// ---------------------------------------------------------------- virtual clock
-namespace vclock
-{
-int64_t now_ns = 0;
-}
-namespace std
-{
-namespace chrono
-{
-inline namespace _V2
-{
-steady_clock::time_point steady_clock::now() noexcept
-{
-    return time_point(duration(vclock::now_ns));
-}
-} // namespace _V2
-} // namespace chrono
-} // namespace std
-
-// ---------------------------------------------------------------- value types
-struct Val
-{
-    static long live;
-    int64_t*    p;
-    Val() : p(new int64_t(0)) { ++live; }
-    Val(int64_t x) : p(new int64_t(x)) { ++live; }
-    Val(const Val& o) : p(o.p ? new int64_t(*o.p) : nullptr) { ++live; }
-    Val(Val&& o) noexcept : p(o.p)
-    {
-        o.p = nullptr;
-        ++live;
-    }
-    Val& operator=(const Val& o)
-    {
-        if (this != &o)
-        {
-            delete p;
-            p = o.p ? new int64_t(*o.p) : nullptr;
-        }
-        return *this;
-    }
-    Val& operator=(Val&& o) noexcept
-    {
-        if (this != &o)
-        {
-            delete p;
-            p   = o.p;
-            o.p = nullptr;
-        }
-        return *this;
-    }
-    ~Val()
-    {
-        delete p;
-        --live;
-    }
-    int64_t get() const { return p ? *p : -999; }
-};
-long Val::live = 0;
-
-static inline int64_t vget(const int64_t& x)
-{
-    return x;
-}
-static inline int64_t vget(const Val& x)
-{
-    return x.get();
-}
-
-using Key = uint64_t;
-using ms  = std::chrono::milliseconds;
-using namespace cappuccino;
-
-enum Kind
-{
-    LRU    = 0,
-    MRU    = 1,
-    FIFO   = 2,
-    RR     = 3,
-    LFU    = 4,
-    LFUDA  = 5,
-    TLRU   = 6,
-    UTLRU  = 7,
-    UTMAP  = 8,
-    UTSET  = 9
-};
-
-#ifndef KIND
-#error "compile with -DKIND=<0..9>"
-#endif
-constexpr Kind KD = static_cast<Kind>(KIND);
-
-struct Config
-{
-    int     ts, vt;
-    float   lf;
-    size_t  cap;
-    int64_t ttl_ms, tick_ms;
-    int     rnum, rk;
-    std::vector<Key> universe;
-};
-
-struct Op
-{
-    int64_t                                     now;
-    std::string                                 name;
-    int64_t                                     ttl = 0;
-    Key                                         k   = 0;
-    int64_t                                     v   = 0;
-    int                                         a   = 3;
-    int                                         peek = 0;
-    std::vector<std::tuple<int64_t, Key, int64_t>> kvs;
-    std::vector<Key>                            keys;
-};
-
-template<class V, thread_safe ts>
-struct Sel
-{
-    using lru    = lru_cache<Key, V, ts>;
-    using mru    = mru_cache<Key, V, ts>;
-    using fifo   = fifo_cache<Key, V, ts>;
-    using rr     = rr_cache<Key, V, ts>;
-    using lfu    = lfu_cache<Key, V, ts>;
-    using lfuda  = lfuda_cache<Key, V, ts>;
-    using tlru   = tlru_cache<Key, V, ts>;
-    using utlru  = utlru_cache<Key, V, ts>;
-    using utmap  = ut_map<Key, V, ts>;
-    using utset  = ut_set<Key, ts>;
-    using type   = std::tuple_element_t<KIND, std::tuple<lru, mru, fifo, rr, lfu, lfuda, tlru, utlru, utmap, utset>>;
-};
-
-template<class C>
-static C* make(const Config& c)
-{
-    if constexpr (KD == LFUDA)
-    {
-        float ratio = static_cast<float>(c.rnum) / static_cast<float>(1u << c.rk);
-        return new C(c.cap, ms{c.tick_ms}, ratio, c.lf);
-    }
-    else if constexpr (KD == UTLRU)
-    {
-        return new C(ms{c.ttl_ms}, c.cap, c.lf);
-    }
-    else if constexpr (KD == UTMAP || KD == UTSET)
-    {
-        return new C(ms{c.ttl_ms});
-    }
-    else
-    {
-        return new C(c.cap, c.lf);
-    }
-}
-
-static allow mk_allow(int a)
-{
-    return static_cast<allow>(static_cast<uint64_t>(a));
-}
-
-template<class V>
-static std::string fmt_opt(const std::optional<V>& o)
-{
-    if (!o.has_value())
-        return "-";
-    return "v" + std::to_string(vget(o.value()));
-}
-static std::string fmt_optb(bool b)
-{
-    return b ? "v1" : "-";
-}
-
-// Apply one public call; returns the canonical result string.
-template<class C, class V>
-static std::string apply(C& c, const Op& o)
-{
-    vclock::now_ns        = o.now;
-    const std::string& n  = o.name;
-    std::ostringstream out;
-    if (n == "insert")
-    {
-        bool b;
-        if constexpr (KD == TLRU)
-            b = c.insert(ms{o.ttl}, o.k, V(o.v), mk_allow(o.a));
-        else if constexpr (KD == UTSET)
-            b = c.insert(o.k, mk_allow(o.a));
-        else
-            b = c.insert(o.k, V(o.v), mk_allow(o.a));
-        out << "b" << (b ? 1 : 0);
-    }
-    else if (n == "insert_range" || n == "insert_it")
-    {
-        size_t r;
-        if constexpr (KD == TLRU)
-        {
-            std::vector<std::tuple<ms, Key, V>> vec;
-            for (auto& [t, k, v] : o.kvs)
-                vec.emplace_back(ms{t}, k, V(v));
-            r = c.insert_range(std::move(vec), mk_allow(o.a));
-        }
-        else if constexpr (KD == UTSET)
-        {
-            std::vector<Key> vec;
-            for (auto& [t, k, v] : o.kvs)
-                vec.push_back(k);
-            r = c.insert_range(std::move(vec), mk_allow(o.a));
-        }
-        else
-        {
-            std::vector<std::pair<Key, V>> vec;
-            for (auto& [t, k, v] : o.kvs)
-                vec.emplace_back(k, V(v));
-            if constexpr (KD == FIFO)
-            {
-                if (n == "insert_it")
-                    r = c.insert(vec.begin(), vec.end(), mk_allow(o.a));
-                else
-                    r = c.insert_range(std::move(vec), mk_allow(o.a));
-            }
-            else
-                r = c.insert_range(std::move(vec), mk_allow(o.a));
-        }
-        out << "n" << r;
-    }
-    else if (n == "erase")
-    {
-        bool b = c.erase(o.k);
-        out << "b" << (b ? 1 : 0);
-    }
-    else if (n == "erase_range" || n == "erase_it")
-    {
-        size_t r;
-        if constexpr (KD == FIFO)
-        {
-            if (n == "erase_it")
-                r = c.erase(o.keys.begin(), o.keys.end());
-            else
-                r = c.erase_range(o.keys);
-        }
-        else
-            r = c.erase_range(o.keys);
-        out << "n" << r;
-    }
-    else if (n == "find")
-    {
-        if constexpr (KD == LRU || KD == MRU || KD == TLRU || KD == UTLRU)
-            out << fmt_opt(c.find(o.k, o.peek ? peek::yes : peek::no));
-        else if constexpr (KD == LFU || KD == LFUDA)
-            out << fmt_opt(c.find(o.k, o.peek != 0));
-        else if constexpr (KD == UTSET)
-            out << fmt_optb(c.find(o.k));
-        else
-            out << fmt_opt(c.find(o.k));
-    }
-    else if (n == "find_use")
-    {
-        if constexpr (KD == LFU || KD == LFUDA)
-        {
-            auto r = c.find_with_use_count(o.k, o.peek != 0);
-            if (r.has_value())
-                out << "v" << vget(r->first) << ":c" << r->second;
-            else
-                out << "-";
-        }
-        else
-            out << "unsupported";
-    }
-    else if (n == "find_range" || n == "find_it")
-    {
-        out << "L";
-        if constexpr (KD == UTSET)
-        {
-            auto r = c.find_range(o.keys);
-            for (auto& [k, b] : r)
-                out << " " << k << "=" << fmt_optb(b);
-        }
-        else
-        {
-            std::vector<std::pair<Key, std::optional<V>>> r;
-            if constexpr (KD == LRU || KD == MRU || KD == TLRU || KD == UTLRU)
-                r = c.find_range(o.keys, o.peek ? peek::yes : peek::no);
-            else if constexpr (KD == LFU || KD == LFUDA)
-                r = c.find_range(o.keys, o.peek != 0);
-            else if constexpr (KD == FIFO)
-            {
-                if (n == "find_it")
-                    r = c.find(o.keys.begin(), o.keys.end(), o.keys.size());
-                else
-                    r = c.find_range(o.keys);
-            }
-            else
-                r = c.find_range(o.keys);
-            for (auto& [k, ov] : r)
-                out << " " << k << "=" << fmt_opt(ov);
-        }
-    }
-    else if (n == "find_range_fill" || n == "find_fill_it")
-    {
-        out << "L";
-        if constexpr (KD == UTSET)
-        {
-            std::vector<std::pair<Key, bool>> r;
-            for (auto k : o.keys)
-                r.emplace_back(k, false);
-            c.find_range_fill(r);
-            for (auto& [k, b] : r)
-                out << " " << k << "=" << fmt_optb(b);
-        }
-        else
-        {
-            std::vector<std::pair<Key, std::optional<V>>> r;
-            for (auto k : o.keys)
-                r.emplace_back(k, std::nullopt);
-            if constexpr (KD == LRU || KD == MRU || KD == TLRU || KD == UTLRU)
-                c.find_range_fill(r, o.peek ? peek::yes : peek::no);
-            else if constexpr (KD == LFU || KD == LFUDA)
-                c.find_range_fill(r, o.peek != 0);
-            else if constexpr (KD == FIFO)
-            {
-                if (n == "find_fill_it")
-                    c.find_range_fill(r.begin(), r.end());
-                else
-                    c.find_range_fill(r);
-            }
-            else
-                c.find_range_fill(r);
-            for (auto& [k, ov] : r)
-                out << " " << k << "=" << fmt_opt(ov);
-        }
-    }
-    else if (n == "dyn_age")
-    {
-        if constexpr (KD == LFUDA)
-            out << "n" << c.dynamically_age();
-        else
-            out << "unsupported";
-    }
-    else if (n == "update_ttl")
-    {
-        if constexpr (KD == UTLRU)
-        {
-            c.update_ttl(ms{o.ttl});
-            out << "u";
-        }
-        else
-            out << "unsupported";
-    }
-    else if (n == "clear")
-    {
-        if constexpr (KD == UTLRU || KD == UTMAP)
-        {
-            c.clear();
-            out << "u";
-        }
-        else
-            out << "unsupported";
-    }
-    else if (n == "clean")
-    {
-        if constexpr (KD == TLRU || KD == UTLRU || KD == UTMAP || KD == UTSET)
-            out << "n" << c.clean_expired_values();
-        else
-            out << "unsupported";
-    }
-    else if (n == "size")
-        out << "n" << c.size();
-    else if (n == "empty")
-        out << "b" << (c.empty() ? 1 : 0);
-    else if (n == "capacity")
-    {
-        if constexpr (KD == UTMAP || KD == UTSET)
-            out << "unsupported";
-        else
-            out << "n" << c.capacity();
-    }
-    else
-    {
-        std::cerr << "unknown op " << n << "\n";
-        std::exit(3);
-    }
-    return out.str();
-}
-
-// side-effect free observation of one key on a (throw-away or, for rr, the live) instance
-template<class C, class V>
-static std::string peek_key(C& c, Key k)
-{
-    if constexpr (KD == LRU || KD == MRU || KD == TLRU || KD == UTLRU)
-        return fmt_opt(c.find(k, peek::yes));
-    else if constexpr (KD == LFU || KD == LFUDA)
-    {
-        auto r = c.find_with_use_count(k, true);
-        if (!r.has_value())
-            return "-";
-        return "v" + std::to_string(vget(r->first)) + ":c" + std::to_string(r->second);
-    }
-    else if constexpr (KD == UTSET)
-        return fmt_optb(c.find(k));
-    else
-        return fmt_opt(c.find(k));
-}
+#include "common.hpp"
 
 template<class V, thread_safe ts>
 static void run_case(const Config& cfg, const std::vector<Op>& ops, std::ostream& out)
@@ -509,58 +97,15 @@ int main(int argc, char** argv)
         }
         else if (w == "op" || w == "probe")
         {
-            Op o;
             if (w == "probe")
             {
+                Op o;
                 ls >> o.now;
                 o.name = "probe";
                 ops.push_back(o);
                 continue;
             }
-            ls >> o.now >> o.name;
-            const std::string& n = o.name;
-            if (n == "insert")
-                ls >> o.ttl >> o.k >> o.v >> o.a;
-            else if (n == "insert_range" || n == "insert_it")
-            {
-                size_t cnt;
-                ls >> o.a >> cnt;
-                for (size_t i = 0; i < cnt; ++i)
-                {
-                    int64_t t, v;
-                    Key     k;
-                    ls >> t >> k >> v;
-                    o.kvs.emplace_back(t, k, v);
-                }
-            }
-            else if (n == "erase")
-                ls >> o.k;
-            else if (n == "erase_range" || n == "erase_it")
-            {
-                size_t cnt;
-                ls >> cnt;
-                for (size_t i = 0; i < cnt; ++i)
-                {
-                    Key k;
-                    ls >> k;
-                    o.keys.push_back(k);
-                }
-            }
-            else if (n == "find" || n == "find_use")
-                ls >> o.k >> o.peek;
-            else if (n == "find_range" || n == "find_range_fill" || n == "find_it" || n == "find_fill_it")
-            {
-                size_t cnt;
-                ls >> o.peek >> cnt;
-                for (size_t i = 0; i < cnt; ++i)
-                {
-                    Key k;
-                    ls >> k;
-                    o.keys.push_back(k);
-                }
-            }
-            else if (n == "update_ttl")
-                ls >> o.ttl;
+            Op o = parse_op(ls);
             ops.push_back(o);
         }
         else if (w == "end")
